@@ -1,10 +1,10 @@
 (* Property C10: MPOGraph construction (from_terms / add_to_graph) as weighted automata.
    Only statements; every proof is `exact <lemma from Proofs/AutomatonP.v, AutomatonP2.v,
-   AutomatonMultiP.v, BondSumP.v or ExpDecayP.v>`. *)
+   AutomatonMultiP.v, AutomatonMultiP2.v, BondSumP.v or ExpDecayP.v>`. *)
 From TenpyV Require Import Base.Prelude Model.Automaton Proofs.AutomatonP Proofs.AutomatonP2.
 From TenpyV Require Model.AutomatonMulti Proofs.AutomatonMultiP Model.BondSum Proofs.BondSumP
-  Model.ExpDecay Proofs.ExpDecayP.
-Import Model.AutomatonMulti Model.BondSum Model.ExpDecay.
+  Model.ExpDecay Proofs.ExpDecayP Model.AutomatonSplit Proofs.AutomatonMultiP2.
+Import Model.AutomatonMulti Model.BondSum Model.ExpDecay Model.AutomatonSplit.
 Open Scope Z_scope.
 
 (* the decision procedure used by the correspondence checkers is sound *)
@@ -79,9 +79,10 @@ Proof. vm_compute. reflexivity. Qed.
 (* ------------------------------------------------------------------ multi-site terms
    (Model/AutomatonMulti.v: MultiCouplingTerms.add_to_graph with its left / right prefix states and
    the connection at switchLR; the new definitions use add_edge / add_skip / add_string / close /
-   denote of Model/Automaton.v; add_mterm itself is tied to the code through T10_multi_special_cases
-   (add_cterm and add_oterm, which the correspondence stream c10_build executes against the
-   implementation, ARE add_mterm on the embedded terms) and through the dense oracle only) *)
+   denote of Model/Automaton.v; add_mterm is executed against the implementation by the stream
+   c10_build_multi of harness/c10.py (Model/AutomatonMulti.v: check_build_multi), and
+   add_cterm / add_oterm of the stream c10_build ARE add_mterm on the embedded terms
+   (T10_multi_special_cases)) *)
 
 (* the names of the tuple keys ('left', i, op, str, j, ...) / ('right', ...) inside `key` are
    injective and disjoint; the one-triple left key is the Lbl key of CouplingTerms.add_to_graph *)
@@ -137,7 +138,35 @@ Example T10_ex_from_terms_multi :
   peqb (denote g) (map nf_oterm [mkOT 1 4 (7, 0)] ++ map nf_cterm [mkCT 0 5 9 3 7 (1, 1)] ++
                    map nf_mterm AutomatonMultiP.ex_mts) = true.
 Proof. exact AutomatonMultiP.ex_from_terms_m. Qed.
-(* add_multi_coupling_term's splitting at switchLR (example only, not proved in general) *)
+(* MultiCouplingTerms.add_multi_coupling_term: the splitting of (ijkl, ops_ijkl, op_string, switchLR)
+   at switchLR into the stored form (path in terms_left, path in terms_right, connection) keeps the
+   operator, for every number of operators and every switchLR with ijkl[0] <= switchLR <= ijkl[-1]
+   (split_ok: the preconditions the code checks: i < j < k < ..., len(op_string) = len(ijkl) - 1).
+   Tie to the code: stream c10_split (Model/AutomatonTieCheck.v: check_split) compares split_term with
+   the form the implementation stores, for 'middle_i' / 'middle_op' / integer switchLR. *)
+Theorem T10_split_term : forall ops strs sw w, split_ok ops strs sw = true ->
+  nf_mterm (split_term ops strs sw w) = (w, term_word ops strs).
+Proof. exact AutomatonMultiP2.split_term_nf. Qed.
+
+(* the stored form satisfies the precondition of T10_add_to_graph_multi on every chain that contains
+   the last site *)
+Theorem T10_split_term_ok : forall L ops strs sw w, split_ok ops strs sw = true ->
+  (fst (last ops dflt_op) < L)%nat -> mterm_ok L (split_term ops strs sw w) = true.
+Proof. exact AutomatonMultiP2.split_term_ok. Qed.
+
+(* add_multi_coupling_term followed by add_to_graph: exactly w * op_0(i_0) str_0 .. op_n(i_n) is added *)
+Theorem T10_add_split_term : forall g ops strs sw w, mwf g -> split_ok ops strs sw = true ->
+  (fst (last ops dflt_op) < length g)%nat ->
+  mwf (add_mterm g (split_term ops strs sw w)) /\
+  peq (denote (close (add_mterm g (split_term ops strs sw w)))) ((w, term_word ops strs) :: denote (close g)).
+Proof. exact AutomatonMultiP2.add_split_term. Qed.
+
+Example T10_ex_split_ok :
+  split_ok [(0%nat, 5); (2%nat, 6); (4%nat, 7); (5%nat, 8)] [9; 2; 0] 3 = true /\
+  split_ok [(0%nat, 5); (2%nat, 6); (4%nat, 7); (5%nat, 8)] [9; 2; 0] 0 = true /\
+  split_ok [(0%nat, 5); (2%nat, 6); (4%nat, 7); (5%nat, 8)] [9; 2; 0] 5 = true /\
+  split_ok [(1%nat, 5); (4%nat, 6)] [7] 2 = true.
+Proof. exact AutomatonMultiP2.split_ok_ex. Qed.
 Example T10_ex_split_term :
   split_term [(0%nat, 5); (2%nat, 6); (4%nat, 7); (5%nat, 8)] [9; 2; 0] 3 (1, 0) =
     mkMT [(0%nat, 5, 9); (2%nat, 6, 2)] [(5%nat, 8, 0); (4%nat, 7, 2)] 3 2 (1, 0) /\
@@ -150,7 +179,12 @@ Proof. exact AutomatonMultiP.ex_split_term. Qed.
 (* ------------------------------------------------------------------ nearest-neighbour bond form
    (Model/BondSum.v: CouplingTerms.to_nn_bond_Arrays + OnsiteTerms.add_to_nn_bond_Arrays with
    distribute (1/2, 1/2) and the boundary exceptions, as called by calc_H_bond; weights doubled so
-   that 1/2 is exact; tied to the code through this theorem and the dense oracle only) *)
+   that 1/2 is exact.  Tie to the code: stream c10_bond (Model/AutomatonTieCheck.v: check_bond): for
+   models with on-site and nearest-neighbour terms and integer / Gaussian-integer strengths, finite and
+   infinite, explicit_plus_hc = False, every H_bond[j] of CouplingModel.calc_H_bond is decomposed into the
+   named operator products of the containers (numerical linear solve, residual checked) and the doubled
+   coefficients are compared exactly inside Coq with h_bond of the model, product by product, together
+   with the positions of the None entries) *)
 Theorem T10_bond_sum : forall L ots cts, (2 <= L)%nat ->
   forallb (oterm_ok L) ots = true ->
   forallb (fun t => Nat.eqb (ct_j t) (S (ct_i t)) && (ct_j t <? L)%nat) cts = true ->
@@ -244,6 +278,9 @@ Print Assumptions T10_add_to_graph_multi.
 Print Assumptions T10_multi_special_cases.
 Print Assumptions T10_mwf_empty.
 Print Assumptions T10_from_terms_multi.
+Print Assumptions T10_split_term.
+Print Assumptions T10_split_term_ok.
+Print Assumptions T10_add_split_term.
 Print Assumptions T10_bond_sum.
 Print Assumptions T10_bond0_empty.
 Print Assumptions T10_bond_sum_infinite.
